@@ -133,7 +133,11 @@ func (c CurlyRouter) detectWebService(requestTokens []string, webServices []*Web
 	score := -1
 	for _, each := range webServices {
 		matches, eachScore := c.computeWebserviceScore(requestTokens, each.pathExpr.tokens)
-		if matches && (eachScore > score) {
+		if !matches {
+			continue
+		}
+		// on equal scores the root path decides, not the order of registration
+		if eachScore > score || (eachScore == score && best != nil && each.rootPath < best.rootPath) {
 			best = each
 			score = eachScore
 		}
